@@ -682,14 +682,17 @@ def lean(row):
 # clause as predicate): smallest failing ancestry, collapsed to (left parent, revision) when that still fails, every
 # edit that is not needed undone, every by-standing object removed, metadata flattened.  The signature is then read off
 # the minimal history.  The verdict itself is never taken from the twin: TLC judged the original row.
-def py_failed(h, o, meta=True, tags=True):
-    """Python twin of the clause-wise laws, coarse: the kind of failure as a hashable value, or None."""
+def py_failed(h, o, meta=True, tags=True, count=True):
+    """Python twin of the clause-wise laws, coarse: the kind of failure as a hashable value, or None.
+    count=False: only the unfolding of the tip is compared (C35: two revisions with equal tree, parents and metadata
+    are one git commit, and the id-free projection cannot and need not tell such twins apart)."""
     if not o.get("ok"):
         return "error:%s:%s@%s" % (o.get("stage", ""), o.get("exc"), o.get("site"))
     n = len(h["P"])
-    if o.get("nrevs") != n or len(o["P"]) != n or \
-            sorted(_unfold_keys(h["P"], [0] * n)) != sorted(_unfold_keys(o["P"], [0] * len(o["P"]))) or \
-            _unfold_keys(h["P"], [0] * n)[h["tip"] - 1] != _unfold_keys(o["P"], [0] * n)[o["tip"] - 1]:
+    if count and (o.get("nrevs") != n or len(o["P"]) != n or
+                  sorted(_unfold_keys(h["P"], [0] * n)) != sorted(_unfold_keys(o["P"], [0] * len(o["P"])))):
+        return "graph"
+    if _unfold_keys(h["P"], [0] * n)[h["tip"] - 1] != _unfold_keys(o["P"], [0] * len(o["P"]))[o["tip"] - 1]:
         return "graph"
     hk = _unfold_keys(h["P"], [carried(t) for t in h["T"]])
     ok = _unfold_keys(o["P"], [carried(t) for t in o["T"]])
